@@ -62,9 +62,13 @@ type svScenario struct {
 	Shape     svShape            `json:"shape"`
 	Scripts   map[string][]svBeh `json:"scripts"`
 	KillAfter int                `json:"killAfter"` // kill after this many logged lines; <0: after the tree settled
-	GraceMs   int                `json:"graceMs"`   // observation window after everything stopped
-	UnitUs    int                `json:"unitUs"`    // length of a work unit
-	Src       string             `json:"src"`
+	// ObserveUs > 0: until the tree settled the driver samples the supervisor's tree every ObserveUs microseconds and
+	// logs an "Obs" line (snapshot only) whenever it differs from the last logged snapshot.  This pins down the order
+	// of the supervisor's silent steps between service-level lines (e.g. which nodes one restart scan re-initialised).
+	ObserveUs int    `json:"observeUs"`
+	GraceMs   int    `json:"graceMs"` // observation window after everything stopped
+	UnitUs    int    `json:"unitUs"`  // length of a work unit
+	Src       string `json:"src"`
 }
 
 type svTrace struct {
@@ -99,6 +103,7 @@ type svTree struct {
 	cur      map[string]*svInst // latest instance per dn
 	lastProg time.Time
 	seen     map[string]bool // "dn#inst:Ev" of every logged service line
+	lastSnap string          // JSON of the snapshot of the last logged line
 	killed   bool
 	ended    bool
 	doubles  int
@@ -157,7 +162,11 @@ func (t *svTree) emit(ev string, a map[string]interface{}) {
 			t.seen[fmt.Sprintf("%s#%d:%s", dn, no, ev)] = true
 		}
 	}
-	b, err := json.Marshal(map[string]interface{}{"t": t.sc.ID, "n": t.n, "g": svT.g, "ev": ev, "a": a, "s": t.snapshot()})
+	snap := t.snapshot()
+	if sb, err := json.Marshal(snap); err == nil {
+		t.lastSnap = string(sb)
+	}
+	b, err := json.Marshal(map[string]interface{}{"t": t.sc.ID, "n": t.n, "g": svT.g, "ev": ev, "a": a, "s": snap})
 	if err != nil {
 		panic(err)
 	}
@@ -393,9 +402,18 @@ func (t *svTree) drive(dir string, stall time.Duration) {
 
 	poll := 2 * time.Millisecond
 	// ---- phase 1: until settled (or the scripted kill point)
+	poll1 := poll
+	if t.sc.ObserveUs > 0 {
+		poll1 = time.Duration(t.sc.ObserveUs) * time.Microsecond
+	}
 	for {
-		time.Sleep(poll)
+		time.Sleep(poll1)
 		svT.mu.Lock()
+		if t.sc.ObserveUs > 0 {
+			if sb, err := json.Marshal(t.snapshot()); err == nil && string(sb) != t.lastSnap {
+				t.emit("Obs", nil)
+			}
+		}
 		ok, why := t.settled()
 		killNow := t.sc.KillAfter >= 0 && t.n >= t.sc.KillAfter
 		if t.n > svMaxLines {
